@@ -29,14 +29,14 @@ structure Ahead (s : St) (p : Nat) (inp : Input) (x : Nat) (rest : List Nat) : P
 theorem skip_one (div : DivFn) (p : Nat) (inp : Input) (x : Nat) (q : Nat) (rest : List Nat) (hqp : q ≠ p) :
     ∀ (n : Nat) (s : St), s.tactic.get q ≤ n → Ahead s p inp x (q :: rest) →
       ∃ acts s', run div s acts = some s' ∧ Ahead s' p inp x rest ∧ acts.length + s'.tactic.total ≤ s.tactic.total + 1 ∧
-        (∀ d ∈ s.delivered, d ∈ s'.delivered) := by
+        (∃ dl, s'.delivered = s.delivered ++ dl) ∧ (∀ a ∈ acts, isOwn a = true) := by
   intro n
   induction n with
   | zero =>
     intro s hn h
     have ht : s.tactic.get q = 0 := by omega
     -- skip (or whatever the registration state of q is, the allotment is zero)
-    refine ⟨[.skip], { s with pc := .prio 1 rest }, ?_, ?_, by simp; omega, fun d hd => hd⟩
+    refine ⟨[.skip], { s with pc := .prio 1 rest }, ?_, ?_, by simp; omega, ⟨[], (List.append_nil _).symm⟩, by simp [isOwn]⟩
     · simp only [run, step, h.pc, stepPoll]
       cases hin : alGet s.inputs q with
       | none => simp
@@ -54,10 +54,10 @@ theorem skip_one (div : DivFn) (p : Nat) (inp : Input) (x : Nat) (q : Nat) (rest
       ⟨rfl, hmem', h.input, h.undrained, h.allot, h.head, fun q' hq' => h.alone q' (List.mem_cons_of_mem _ hq'), h.chansOK⟩
     cases hin : alGet s.inputs q with
     | none =>
-      exact ⟨[.skip], _, by simp [run, step, h.pc, stepPoll, hin], toRest, by simp; omega, fun d hd => hd⟩
+      exact ⟨[.skip], _, by simp [run, step, h.pc, stepPoll, hin], toRest, by simp; omega, ⟨[], (List.append_nil _).symm⟩, by simp [isOwn]⟩
     | some iq =>
       by_cases hsk : iq.drained ∨ s.tactic.get q = 0
-      · exact ⟨[.skip], _, by simp [run, step, h.pc, stepPoll, hin, hsk], toRest, by simp; omega, fun d hd => hd⟩
+      · exact ⟨[.skip], _, by simp [run, step, h.pc, stepPoll, hin, hsk], toRest, by simp; omega, ⟨[], (List.append_nil _).symm⟩, by simp [isOwn]⟩
       · have hsome := h.chansOK q iq hin
         cases hch : alGet s.chans iq.chan with
         | none => rw [hch] at hsome; cases hsome
@@ -67,7 +67,7 @@ theorem skip_one (div : DivFn) (p : Nat) (inp : Input) (x : Nat) (q : Nat) (rest
           | nil =>
             by_cases hcl : ch.closed = true
             · -- pollClosed
-              refine ⟨[.pollClosed], { s with inputs := alSet s.inputs q { iq with drained := true }, pc := .prio 1 rest }, ?_, ?_, by simp; omega, fun d hd => hd⟩
+              refine ⟨[.pollClosed], { s with inputs := alSet s.inputs q { iq with drained := true }, pc := .prio 1 rest }, ?_, ?_, by simp; omega, ⟨[], (List.append_nil _).symm⟩, by simp [isOwn]⟩
               · simp [run, step, h.pc, stepPoll, hin, hsk, hch, hq, hcl]
               · refine ⟨rfl, hmem', ?_, h.undrained, h.allot, h.head, ?_, ?_⟩
                 · show alGet (alSet s.inputs q _) p = some inp
@@ -85,7 +85,7 @@ theorem skip_one (div : DivFn) (p : Nat) (inp : Input) (x : Nat) (q : Nat) (rest
                   · cases hin''; exact h.chansOK q iq hin
                   · exact h.chansOK q' inp' hin''
             · -- pollEmpty
-              exact ⟨[.pollEmpty], _, by simp [run, step, h.pc, stepPoll, hin, hsk, hch, hq, hcl], toRest, by simp; omega, fun d hd => hd⟩
+              exact ⟨[.pollEmpty], _, by simp [run, step, h.pc, stepPoll, hin, hsk, hch, hq, hcl], toRest, by simp; omega, ⟨[], (List.append_nil _).symm⟩, by simp [isOwn]⟩
           | cons y ys =>
             -- pollItem: one item of q is delivered, its allotment decreases, q stays at the head
             let s1 : St := { s with
@@ -119,14 +119,22 @@ theorem skip_one (div : DivFn) (p : Nat) (inp : Input) (x : Nat) (q : Nat) (rest
             have hn1 : s1.tactic.get q ≤ n := by
               show (s.tactic.set q (s.tactic.get q - 1)).get q ≤ n
               rw [Dist.get_set]; simp; omega
-            obtain ⟨acts, s', hr, ha, hl, hd⟩ := ih s1 hn1 h1
+            obtain ⟨acts, s', hr, ha, hl, ⟨dl, hd⟩, hown⟩ := ih s1 hn1 h1
             have htot : s1.tactic.total + 1 = s.tactic.total := by
               have := Dist.total_set s.tactic q (s.tactic.get q - 1)
               show (s.tactic.set q (s.tactic.get q - 1)).total + 1 = s.tactic.total
               omega
-            refine ⟨.pollItem :: acts, s', by simp [run, hstep, hr], ha, by simp only [List.length_cons]; omega, fun d hd' => hd d ?_⟩
-            show d ∈ s.delivered ++ [(q, iq.chan, y)]
-            exact List.mem_append_left _ hd'
+            refine ⟨.pollItem :: acts, s', by simp [run, hstep, hr], ha, by simp only [List.length_cons]; omega,
+              ⟨(q, iq.chan, y) :: dl, ?_⟩, ?_⟩
+            case refine_2 =>
+              intro a ha'
+              simp only [List.mem_cons] at ha'
+              rcases ha' with e | e
+              · subst e; rfl
+              · exact hown a e
+            rw [hd]
+            show s.delivered ++ [(q, iq.chan, y)] ++ dl = s.delivered ++ (q, iq.chan, y) :: dl
+            simp
 
 /-- runs compose -/
 theorem run_append (div : DivFn) : ∀ (l1 l2 : List Act) (u u1 u2 : St), run div u l1 = some u1 → run div u1 l2 = some u2 →
@@ -146,8 +154,8 @@ theorem run_append (div : DivFn) : ∀ (l1 l2 : List Act) (u u1 u2 : St), run di
     ahead) of them. -/
 theorem c06_phase1_delivers (div : DivFn) (p : Nat) (inp : Input) (x : Nat) :
     ∀ (rest : List Nat) (s : St), Ahead s p inp x rest →
-      ∃ acts s', run div s acts = some s' ∧ (p, inp.chan, x) ∈ s'.delivered ∧
-        acts.length ≤ s.tactic.total + rest.length := by
+      ∃ acts s', run div s acts = some s' ∧ (∃ dl, s'.delivered = s.delivered ++ dl ∧ (p, inp.chan, x) ∈ dl) ∧
+        acts.length ≤ s.tactic.total + rest.length ∧ (∀ a ∈ acts, isOwn a = true) := by
   intro rest
   induction rest with
   | nil => intro s h; exact absurd h.mem (by simp)
@@ -170,12 +178,12 @@ theorem c06_phase1_delivers (div : DivFn) (p : Nat) (inp : Input) (x : Nat) :
         processed := s.processed + 1 }
       have hstep : step div s .pollItem = some s1 := by
         simp [step, h.pc, stepPoll, h.input, hnd, hc1, hc2, s1]
-      refine ⟨[.pollItem], s1, by simp [run, hstep], ?_, by simp; omega⟩
-      show (q, inp.chan, x) ∈ s.delivered ++ [(q, inp.chan, x)]
-      simp
-    · obtain ⟨a1, s1, hr1, h1, hl1, _⟩ := skip_one div p inp x q rest hqp (s.tactic.get q) s (Nat.le_refl _) h
-      obtain ⟨a2, s2, hr2, hd2, hl2⟩ := ih s1 h1
-      refine ⟨a1 ++ a2, s2, run_append div a1 a2 s s1 s2 hr1 hr2, hd2, ?_⟩
+      exact ⟨[.pollItem], s1, by simp [run, hstep], ⟨[(q, inp.chan, x)], rfl, by simp⟩, by simp; omega, by simp [isOwn]⟩
+    · obtain ⟨a1, s1, hr1, h1, hl1, ⟨d1, hd1⟩, ho1⟩ := skip_one div p inp x q rest hqp (s.tactic.get q) s (Nat.le_refl _) h
+      obtain ⟨a2, s2, hr2, ⟨d2, hd2, hm2⟩, hl2, ho2⟩ := ih s1 h1
+      refine ⟨a1 ++ a2, s2, run_append div a1 a2 s s1 s2 hr1 hr2,
+        ⟨d1 ++ d2, by rw [hd2, hd1, List.append_assoc], List.mem_append_right _ hm2⟩, ?_,
+        fun a ha => by rcases List.mem_append.1 ha with e | e; exact ho1 a e; exact ho2 a e⟩
       simp only [List.length_append, List.length_cons]
       omega
 
@@ -274,8 +282,9 @@ theorem c06_idle_delivers (div : DivFn) (keys : List (Nat × Bool)) (H : Nat) (h
     (hpc : s.pc = .calc) (hidle : s.actual.total = 0)
     (p : Nat) (inp : Input) (hin : alGet s.inputs p = some inp) (hud : inp.drained = false)
     (ch : Chan) (x : Nat) (q : List Nat) (hch : alGet s.chans inp.chan = some ch) (hq : ch.queue = x :: q) :
-    ∃ acts' s', run div s (.calc :: acts') = some s' ∧ (p, inp.chan, x) ∈ s'.delivered ∧
-      acts'.length ≤ H + s.prios.length := by
+    ∃ acts' s', run div s (.calc :: acts') = some s' ∧
+      (∃ dl, s'.delivered = s.delivered ++ dl ∧ (p, inp.chan, x) ∈ dl) ∧
+      acts'.length ≤ H + s.prios.length ∧ (∀ a ∈ acts', isOwn a = true) := by
   obtain ⟨hfill, hv2, _, hH0⟩ := C07.initV2_fill div keys H s0 h0
   obtain ⟨hf, _⟩ := C01.initV2_fresh div keys H s0 h0
   obtain ⟨ht, hinv, hwf, hcfg⟩ := C07.tinv_run div acts s0 s (C01.fresh_inv hf) (C15.wf_initV2 div keys H s0 hnd h0)
@@ -299,8 +308,14 @@ theorem c06_idle_delivers (div : DivFn) (keys : List (Nat × Bool)) (H : Nat) (h
       rw [hown q' inp' hq', hown p inp hin]; exact hne
     · intro q' inp' hq'
       rw [f1] at hq'; rw [f2]; exact ht.chansOK q' inp' hq'
-  obtain ⟨acts', s', hr', hd', hl'⟩ := c06_phase1_delivers div p inp x s.prios (stepCalc div s) hA
-  refine ⟨acts', s', by simp [run, hstep, hr'], hd', ?_⟩
+  obtain ⟨acts', s', hr', hd', hl', ho'⟩ := c06_phase1_delivers div p inp x s.prios (stepCalc div s) hA
+  have hdel : (stepCalc div s).delivered = s.delivered := by
+    simp only [stepCalc]
+    split
+    · split <;> rfl
+    · split <;> rfl
+  rw [hdel] at hd'
+  refine ⟨acts', s', by simp [run, hstep, hr'], hd', ?_, ho'⟩
   -- the total allotment is at most H
   have hcap := (C01.step_inv div s (stepCalc div s) .calc hinv hstep).1.cap
   rw [hpc'] at hcap
